@@ -1,11 +1,11 @@
 package main
 
 import (
-	"sort"
-	"os"
 	"fmt"
 	"go/token"
 	"go/types"
+	"os"
+	"sort"
 	"strings"
 
 	"golang.org/x/tools/go/ssa"
